@@ -194,9 +194,78 @@ fn drive_timeout_reuse(out: &mut Out) {
     }
 }
 
+/// Sequences of calls on ONE thread under the real clock: a diff that runs out of time must not
+/// influence a later diff whose deadline lies an hour ahead (or that has no deadline) - "a
+/// deadline that never expires gives exactly the result of no deadline" also as the second,
+/// third ... call of a thread.  No timing assumption beyond "a diff of 40 items takes < 1 h".
+fn drive_real_sequences(out: &mut Out, rng: &mut Rng) {
+    for round in 0..3 {
+        let (x, y) = hard_gap_pair(rng, 3, 10);
+        let xs: Vec<String> = x.iter().map(|v| format!("{}\n", v)).collect();
+        let ys: Vec<String> = y.iter().map(|v| format!("{}\n", v)).collect();
+        let (xt, yt) = (xs.concat(), ys.concat());
+        for alg in ALGS {
+            let (x, y, xt, yt) = (x.clone(), y.clone(), xt.clone(), yt.clone());
+            let h = std::thread::spawn(move || {
+                let reference = similar::capture_diff_slices(alg, &x, &y);
+                let far = || Instant::now() + Duration::from_secs(3600);
+                let mut got: Vec<(&'static str, Option<Vec<similar::DiffOp>>)> = vec![];
+                // far deadline before anything expired
+                got.push(("real_far_first", rec::guarded(|| similar::capture_diff_slices_deadline(alg, &x, &y, Some(far())))));
+                // a diff that is out of time from the start
+                let expired_at = Instant::now();
+                std::thread::sleep(Duration::from_millis(2));
+                let _ = rec::guarded(|| similar::capture_diff_slices_deadline(alg, &x, &y, Some(expired_at)));
+                // ... followed by diffs that have all the time in the world
+                got.push(("real_far_after_expiry", rec::guarded(|| similar::capture_diff_slices_deadline(alg, &x, &y, Some(far())))));
+                got.push(("real_none_after_expiry", rec::guarded(|| similar::capture_diff_slices_deadline(alg, &x, &y, None))));
+                got.push((
+                    "real_textdiff_deadline_after_expiry",
+                    rec::guarded(|| TextDiff::configure().algorithm(alg).deadline(far()).diff_lines(&xt[..], &yt[..]).ops().to_vec()),
+                ));
+                got.push((
+                    "real_textdiff_timeout_after_expiry",
+                    rec::guarded(|| TextDiff::configure().algorithm(alg).timeout(Duration::from_secs(3600)).diff_lines(&xt[..], &yt[..]).ops().to_vec()),
+                ));
+                // an expired text diff, then a far one on the same builder family
+                let _ = rec::guarded(|| TextDiff::configure().algorithm(alg).timeout(Duration::ZERO).diff_lines(&xt[..], &yt[..]).ops().to_vec());
+                got.push((
+                    "real_textdiff_timeout_after_zero_timeout",
+                    rec::guarded(|| TextDiff::configure().algorithm(alg).timeout(Duration::from_secs(3600)).diff_lines(&xt[..], &yt[..]).ops().to_vec()),
+                ));
+                let mut d = similar::algorithms::Replace::new(similar::algorithms::Capture::new());
+                let raw = rec::guarded(|| {
+                    similar::algorithms::diff_deadline(alg, &mut d, &x[..], 0..x.len(), &y[..], 0..y.len(), Some(far())).unwrap();
+                });
+                let raw_ref = {
+                    let mut d2 = similar::algorithms::Replace::new(similar::algorithms::Capture::new());
+                    similar::algorithms::diff_deadline(alg, &mut d2, &x[..], 0..x.len(), &y[..], 0..y.len(), None).unwrap();
+                    d2.into_inner().into_ops()
+                };
+                let raw_got = raw.map(|_| d.into_inner().into_ops());
+                (reference, got, raw_ref, raw_got)
+            });
+            if let Ok((reference, got, raw_ref, raw_got)) = h.join() {
+                let mut emit = |via: &str, r: &[similar::DiffOp], g: &Option<Vec<similar::DiffOp>>| {
+                    let case = out.next_case();
+                    out.emit(&json!({"ev":"same","case":case,"clause":"plumbing","via":via,"alg":alg_name(alg),"round":round,
+                        "old":[],"new":[],"fuel":-2,
+                        "a":{"ops":rec::ops_json(r),"panic":false,"probed":true},
+                        "b":{"ops":g.as_ref().map(|o| rec::ops_json(o)).unwrap_or(json!([])),"panic":g.is_none(),"probed":true}}));
+                };
+                for (via, g) in &got {
+                    emit(via, &reference, g);
+                }
+                emit("real_raw_far_after_expiry", &raw_ref, &raw_got);
+            }
+        }
+    }
+}
+
 /// deadlines / timeouts configured on the builder and on capture_diff_deadline reach the algorithm
 fn drive_plumbing(a: &Args, out: &mut Out, rng: &mut Rng) {
     drive_timeout_reuse(out);
+    drive_real_sequences(out, rng);
     let thorough = a.thorough();
     let n = if thorough { 300 } else { 40 };
     for i in 0..n {
